@@ -161,7 +161,7 @@ OP_KINDS = ["diy", "dim", "wiy", "diyr", "leap", "cwds", "owds", "d1ad",
             "rec_valid", "rec_after", "rec_getitem", "rec_open", "rec_next",
             "hold", "held_add", "held_reprs", "dto_proc", "dto_diff", "cli",
             "trunc_add", "consts", "props_epoch", "xuse", "xuse",
-            "from_epoch_l"]
+            "from_epoch_l", "sh_proc", "sh_now"]
 
 
 def gen_op(rng, kind, hot, handles):
@@ -298,8 +298,26 @@ def gen_op(rng, kind, hot, handles):
         return ["dto_diff", gen_point(rng, hot), gen_point(rng, hot),
                 [rng.choice(DURS)] if rng.random() < 0.3 else [],
                 [rng.choice(DURS)] if rng.random() < 0.3 else []]
+    if kind == "sh_proc":
+        # the one long-lived operator of the process, used by every client
+        offs = [rng.choice(DURS) for _ in range(rng.choice([0, 1, 1, 2]))]
+        return ["sh_proc", gen_point(rng, hot), offs,
+                rng.choice([None, None] + DUMP_FORMATS)]
+    if kind == "sh_now":
+        # ... also for the current time (the simulated clock stands within
+        # one second for a whole run, so the text is reproducible)
+        offs = [rng.choice(DURS) for _ in range(rng.choice([0, 0, 1, 2]))]
+        return ["sh_now", rng.choice(["now", None, "ref"]), offs,
+                rng.choice([None, None, "CCYY-DDDThh:mm:ssZ", "%Y-%m-%d %j",
+                            "CCYY-Www-DThh:mm:ss+hh:mm"])]
     if kind == "cli":
         form = rng.randint(0, 3)
+        if rng.random() < 0.06:
+            args = ["now"] + ["--offset=" + rng.choice(DURS)
+                              for _ in range(rng.choice([0, 1]))]
+            if rng.random() < 0.5:
+                args.append("--utc")
+            return ["cli", args]
         if form == 0:
             args = [gen_point(rng, hot)]
             for _ in range(rng.choice([0, 1, 2])):
@@ -482,6 +500,7 @@ def directed_ops():
                 ["dto_proc", p, ["P1M", "P1D"], None],
                 ["dto_proc", p, ["P60D"], "CCYY-DDD"],
                 ["dto_diff", p, "2024-03-01T00:00:00Z", [], ["P1M"]],
+                ["sh_proc", p, ["P1M", "P1D"], "CCYY-DDD"],
                 ["cli", [p, "--offset=P1M1D"]],
                 ["cli", [p, "2024-03-01T00:00:00Z"]],
                 ["cli", ["R/%s/P1M" % p, "--max=4"]],
@@ -490,7 +509,9 @@ def directed_ops():
     for xi, (xkind, text) in enumerate(X_VALUES):
         for action in X_ACTIONS[xkind]:
             ops.append(["xuse", "x%d" % xi, xkind, text, action])
-    ops += [["from_epoch_l", 0], ["from_epoch_l", 86400 * 45],
+    ops += [["sh_now", "now", ["P1M"], None], ["sh_now", None, [], "CCYY-DDD"],
+            ["sh_now", "ref", ["-P60D"], None], ["cli", ["now", "--utc"]],
+            ["from_epoch_l", 0], ["from_epoch_l", 86400 * 45],
             ["from_epoch_l", 951782400], ["from_epoch_l", -86400 * 400],
             ["cli", ["2000-01-01T00:00:00Z", "--offset=P150000D"]],
             ["from_epoch", 13 * 10 ** 9], ["from_epoch", -2 * 10 ** 10],
@@ -762,6 +783,9 @@ def do_op(sim, client, op):
                         op[1], op[2] or None, op[3])
                 return client.dto.diff_time_point_strs(
                     op[1], op[2], op[3] or None, op[4] or None)
+            if kind in ("sh_proc", "sh_now"):
+                return sim.oper.process_time_point_str(
+                    op[1], op[2] or None, op[3])
             if kind == "cli":
                 return sim.client_cli(client, op[1])
             if kind == "trunc_add":
@@ -1101,12 +1125,17 @@ class Sim(object):
             if how == "calendar":
                 cal = data.Calendar()
                 cal.set_mode(sp)
+                if cal is data.Calendar.default():
+                    # an implementation in which Calendar() hands out the
+                    # active calendar: then this *was* a switch
+                    self.note_mode(sp)
                 [cal.mode, cal.DAYS_IN_YEAR, cal.DAYS_IN_MONTHS,
                  cal.DAYS_IN_YEAR_LEAP, cal.WEEKS_IN_YEAR]
                 self.scratch_cals = getattr(self, "scratch_cals", [])[-3:]
                 self.scratch_cals.append(cal)
             elif how == "calendar_init":
-                data.Calendar()
+                if data.Calendar() is data.Calendar.default():
+                    self.model_mode = None     # re-initialised: unknown
             elif how == "parsers":
                 tpp = parsers.TimePointParser(
                     num_expanded_year_digits=3, allow_truncated=True,
@@ -1132,6 +1161,11 @@ class Sim(object):
         trace = self.trace
         if self.solo is None and trace.get("cache_max") is not None:
             world.shrink_caches(trace["cache_max"])   # 0 = no memoisation
+        # the process's one long-lived operator, built before anybody chose
+        # a calendar (its constructor selects gregorian: no env var is set)
+        from metomi.isodatetime.datetimeoper import DateTimeOperator
+        with kernel.guarded():
+            self.oper = DateTimeOperator()
         if self.solo is not None:
             with kernel.guarded():
                 data.Calendar.default().set_mode(self.clients[self.solo].sp)
@@ -1233,12 +1267,15 @@ def run_singletons(trace, picks, alarm=None):
     world.set_env(world.ENV_CAL, None)
     world.set_env(world.ENV_REF, None)
     shared = Shared()
+    from metomi.isodatetime.datetimeoper import DateTimeOperator
+    oper = DateTimeOperator()
 
     def one(sn):
         from metomi.isodatetime import data
         step = trace["steps"][sn]
         sim = Sim(trace, solo=step["c"])
         sim.shared = shared
+        sim.oper = oper
         client = sim.clients[step["c"]]
         with kernel.guarded():
             data.Calendar.default().set_mode(client.sp)
